@@ -2,6 +2,7 @@ package vc
 
 import (
 	"fmt"
+	"go/ast"
 	"go/constant"
 	"go/token"
 	"go/types"
@@ -269,6 +270,14 @@ func (r *run) valuesEqual(xv, yv Value, xt, yt types.Type) *smt.Term {
 		case Scalar:
 			if a.T.Sort != b.T.Sort {
 				r.unsupported("comparing %s with %s", a.T.Sort, b.T.Sort)
+			}
+			if a.T.Sort == StrSort && a.T != b.T {
+				// two different string literals are different strings
+				if _, ok1 := r.E.strConstValue(a.T); ok1 {
+					if _, ok2 := r.E.strConstValue(b.T); ok2 {
+						return c.False()
+					}
+				}
 			}
 			return c.Eq(a.T, b.T)
 		case PtrV:
@@ -1003,6 +1012,28 @@ func (r *run) applyContractSig(fr *frame, cur *node, callee string, fc *contract
 			res = r.pureApp("pure$"+callee, FuncV{}, args, results)
 		} else {
 			res = r.freshResults(short, results)
+			// definitional result: an unconditional "ensures result == e" (single result, e not mentioning it)
+			// binds the result to e itself, so that later branches on it fold
+			if results.Len() == 1 && fc.Foreach == nil {
+				if s := r.scalarSort(results.At(0).Type()); s != nil {
+					for _, cl := range fc.Ensures {
+						be, ok := cl.Expr.(*ast.BinaryExpr)
+						if !ok || be.Op != token.EQL || cl.Foreach != nil {
+							continue
+						}
+						id, ok := be.X.(*ast.Ident)
+						if !ok || !(id.Name == "result" || id.Name == "result0" || id.Name == results.At(0).Name()) {
+							continue
+						}
+						if tv, ok := en2.tryEvalTyped(be.Y, results.At(0).Type()); ok {
+							if sc, ok := tv.V.(Scalar); ok && sc.T.Sort == s {
+								res = sc
+								break
+							}
+						}
+					}
+				}
+			}
 		}
 		bindResults(en2, fc, results, res)
 	}
